@@ -10,12 +10,21 @@ namespace EaselModel.Dist.Bisect
 variable {α : Type} [Add α] [Sub α] [Mul α] [Div α] [Neg α] [OfScientific α] [LT α] [LE α]
   [DecidableLT α] [DecidableLE α] [Num α]
 
-/-- `do { x2 = x2 + 2.*(x2-x1); f2 = cdf(x2); } while (f2 < p);` -/
+/-- `do { x2 = x2 + 2.*(x2-x1); f2 = cdf(x2); } while (f2 < p);` (sxp) -/
 def bracketRight (cdf : α → α) (p x1 : α) : Nat → α → Option α
   | 0, _ => none
   | n + 1, x2 =>
     let x2 := x2 + 2.0 * (x2 - x1)
     if cdf x2 < p then bracketRight cdf p x1 n x2 else some x2
+
+/-- `do { x2 = x2 + 2.*(x2-x1); f2 = cdf(x2); } while (f2 < p && x2 < eslINFINITY);` (hxp, mixgev since 55bbf88:
+    in binary64 the loop stops at `+inf` when `p` exceeds the largest value the cdf attains).  On ℝ the second test is
+    always true (`BisectThm.bracketRightLim_real`). -/
+def bracketRightLim (cdf : α → α) (p x1 : α) : Nat → α → Option α
+  | 0, _ => none
+  | n + 1, x2 =>
+    let x2 := x2 + 2.0 * (x2 - x1)
+    if cdf x2 < p ∧ Num.ltInf x2 = true then bracketRightLim cdf p x1 n x2 else some x2
 
 /-- `do { x1 = x1 - 2.*(x2-x1); f1 = cdf(x1); } while (f1 > p);` (mixgev, left side) -/
 def bracketLeft (cdf : α → α) (p x2 : α) : Nat → α → Option α
@@ -62,9 +71,15 @@ def bisectMix (cdf : α → α) (p : α) : Nat → α → α → Option α
     ~2100 times (the bracket halves until the midpoint equals an endpoint); `BisectTerm` has the real-number bounds. -/
 def defaultFuel : Nat := 5000
 
-/-- `esl_sxp_invcdf` / `esl_hxp_invcdf`: `x1 = mu; x2 = mu + 1.;` bracket right, bisect -/
+/-- `esl_sxp_invcdf`: `x1 = mu; x2 = mu + 1.;` bracket right, bisect -/
 def invcdfRight (fuel : Nat) (cdf : α → α) (p mu : α) : Option α :=
   match bracketRight cdf p mu fuel (mu + 1.0) with
+  | none => none
+  | some x2 => bisect cdf p mu fuel mu x2
+
+/-- `esl_hxp_invcdf`: the same with the `x2 < eslINFINITY` test in the bracketing loop -/
+def invcdfRightLim (fuel : Nat) (cdf : α → α) (p mu : α) : Option α :=
+  match bracketRightLim cdf p mu fuel (mu + 1.0) with
   | none => none
   | some x2 => bisect cdf p mu fuel mu x2
 
@@ -79,7 +94,7 @@ def invcdfMix (fuel : Nat) (cdf : α → α) (p mumin : α) : Option α :=
   match bracketLeft cdf p mumin fuel (mumin - 1.0) with
   | none => none
   | some x1 =>
-    match bracketRight cdf p x1 fuel mumin with
+    match bracketRightLim cdf p x1 fuel mumin with
     | none => none
     | some x2 => bisectMix cdf p fuel x1 x2
 
